@@ -206,9 +206,15 @@ func (e *env) judge(d *desc) verdict {
 			return noop("unknown-mailbox") // documented: "if db.IsErrNotFound(err) { return nil, nil }"
 		}
 
+		if m.delSubClash(b) && kf.Listed(kfDelSubClash) {
+			ev.Excluded(1)
+			return ambiguous("excluded-known:" + kfDelSubClash)
+		}
+
 		return valid("delete", func() {
 			m.dropBox(b)
 			m.unsub[b.name] = true // TestDeleteMailboxFromConnectorAlsoRemoveSubscriptionStatus
+			delete(m.delSubs, b.name)
 		})
 
 	case kMailboxUpdated:
